@@ -60,6 +60,22 @@ Theorem C09_case_invariance : forall T o1 o2 len root w0 f1 f2,
 Proof. exact C09_case_invariance_pf. Qed.
 
 
+(* keyword case with the two "does not abort" premises discharged by the totality theorem *)
+Theorem C09_case_invariance_total : forall NL NLR RK NLT T o1 o2 len root w0 f1 f2,
+  simb T T (id_rel (length T)) [] [] = true ->
+  In (root, root) (id_rel (length T)) ->
+  (forall q, In q (snd (parse_all T o1 len f1 root w0)) -> o2 q = o1 q) -> o2 (QS w0 0) = o1 (QS w0 0) ->
+  cert_ok NL NLR RK NLT T = true -> oracle_ok NLT o1 len -> oracle_ok NLT o2 len -> root < N.of_nat (List.length T) ->
+  (len + 1) * (Rmax RK + 2) + RKf RK root + 1 < N.of_nat f1 -> (len + 1) * (Rmax RK + 2) + RKf RK root + 1 < N.of_nat f2 ->
+  fst (parse_all T o2 len f2 root w0) = fst (parse_all T o1 len f1 root w0).
+Proof.
+  intros NL NLR RK NLT T o1 o2 len root w0 f1 f2 Hs Hr Hq H0 Hc Ho1 Ho2 Hroot Hf1 Hf2.
+  apply C09_case_invariance_pf; auto.
+  - exact (engine_total NL NLR RK NLT T o1 len root w0 f1 Hc Ho1 Hroot Hf1).
+  - exact (engine_total NL NLR RK NLT T o2 len root w0 f2 Hc Ho2 Hroot Hf2).
+Qed.
+
+
 (* a sequence whose whitespace engine does not skip the comment: the logged skip does not commute, and the outcome changes *)
 Theorem C09_plain_sequence_refuted :
   let T := [Build_entry (NSeq 2 [(1, false); (2, false)]) VNone; Build_entry (NTerm 0) VNone; Build_entry (NTerm 1) VNone] in
